@@ -352,11 +352,12 @@ SPEC = PropSpec(
     scenarios=[(1, C16Saturate)],
     runs={"quick": 100000, "thorough": 2500000},
     rule=("one run = a tiny CountingBloomFilter (<=40 cells, half of the runs with a range-squeezed hash so that a key's "
-          "positions coincide) or a width 1..3 x depth 1..3 sketch (min, mean, heavy hitters, threshold) and <=8 steps "
+          "positions coincide) or a width 1..3 x depth 1..3 sketch (min, mean, mean-min, heavy hitters, threshold) and <=8 steps "
           "over 3 keys with amounts from {1,2,2^31-2..2^31,2^32-2..2^32,2^63,2^64,2^70}: add, remove, union/join with a "
           "second structure built from such adds, export+load.  A big-int cell model with the stated pinning "
           "(multiplicity-aware for the counting Bloom filter) must equal the exported cells after every step; every "
-          "call must return; a pinned smallest cell must be the returned value; totals pin at the 64-bit limits.  "
+          "call must return; a pinned smallest cell must be the returned value and every returned value equals check() right "
+          "afterwards; totals pin at the 64-bit limits; the second operand of a join stays alive and never changes.  "
           "non-trivial = some cell reached a limit; distinct = event-log digests"),
     state_measure="distinct abstracted cell vectors (value capped at 3, -1 = pinned)",
     assumptions=["CPython 3.12", "a sketch cell of the receiver already at a limit before join may stay or hold clamp(sum)",
